@@ -3,12 +3,14 @@ package c07
 
 import (
 	"encoding/base64"
+	"encoding/xml"
 	"errors"
 	"fmt"
 	"net/http"
 	"net/http/httptest"
 	"net/url"
 	"os"
+	"regexp"
 	"runtime/debug"
 	"strings"
 	"testing"
@@ -39,6 +41,34 @@ type SPConf struct {
 	ValidHours    int    `json:"valid_hours,omitempty"`     // MetadataValidDuration
 	AllowInit     bool   `json:"allow_idp_initiated,omitempty"`
 	AcsQuery      bool   `json:"acs_query,omitempty"` // ACS URL carries a query string
+	// CertRender: how the base64 text of X509Certificate elements is laid out in the metadata document the SP
+	// hands to the IdP operator (0 single line, 1 wrapped at 64 with LF, 2 wrapped at 76 with CRLF, 3 wrapped and
+	// indented with spaces, 4 wrapped and indented with tabs, 5 blank lines around, 6 all of it).
+	CertRender int `json:"cert_render,omitempty"`
+}
+
+// RichNameID is a NameID nested in an attribute value (the eduPersonTargetedID form).
+type RichNameID struct {
+	NameQualifier   string `json:"name_qualifier,omitempty"`
+	SPNameQualifier string `json:"sp_name_qualifier,omitempty"`
+	Format          string `json:"format,omitempty"`
+	SPProvidedID    string `json:"sp_provided_id,omitempty"`
+	Value           string `json:"value,omitempty"`
+}
+
+// RichVal is one attribute value in every shape saml.AttributeValue supports.
+type RichVal struct {
+	Type   string      `json:"type,omitempty"`
+	Value  string      `json:"value,omitempty"`
+	NameID *RichNameID `json:"name_id,omitempty"`
+}
+
+// RichAttr is a custom attribute with such values; it follows the session's plain custom attributes.
+type RichAttr struct {
+	Name         string    `json:"name"`
+	FriendlyName string    `json:"friendly_name,omitempty"`
+	NameFormat   string    `json:"name_format,omitempty"`
+	Values       []RichVal `json:"values"`
 }
 
 // Case is one login: SP request -> IdP response -> SP parse.
@@ -49,6 +79,8 @@ type Case struct {
 	Relay string         `json:"relay,omitempty"`
 	// Sess2, when set, logs a second user in through the SAME IdentityProvider and ServiceProvider values.
 	Sess2 *idpkit.Sess `json:"session2,omitempty"`
+	// Rich are further custom attributes of every session of the case, with typed values and nested NameIDs.
+	Rich []RichAttr `json:"rich_attributes,omitempty"`
 	// Pending is the number of OTHER AuthnRequests the SP has outstanding when the response arrives (several
 	// tabs / flows, as samlsp's request tracker reports them); the answered request sits at position
 	// AnswerPos (mod Pending+1) of the list of possible request IDs.
@@ -149,6 +181,25 @@ func gen(t *rapid.T) Case {
 	if rapid.IntRange(0, 2).Draw(t, "second-login") == 0 {
 		s2 := genSess(t)
 		c.Sess2 = &s2
+	}
+	c.SP.CertRender = rapid.SampledFrom([]int{0, 0, 1, 2, 3, 4, 5, 6}).Draw(t, "cert-render")
+	if rapid.IntRange(0, 2).Draw(t, "rich-attributes") == 0 {
+		for n := rapid.IntRange(1, 2).Draw(t, "nrich"); n > 0; n-- {
+			a := RichAttr{Name: text(t, "rich-name"), FriendlyName: text(t, "rich-friendly"), NameFormat: rapid.SampledFrom([]string{"", "urn:oasis:names:tc:SAML:2.0:attrname-format:uri"}).Draw(t, "rich-format")}
+			for k := rapid.IntRange(1, 3).Draw(t, "rich-nvalues"); k > 0; k-- {
+				v := RichVal{Type: rapid.SampledFrom([]string{"xs:string", "xs:string", "xs:anyURI", "", "xs:base64Binary"}).Draw(t, "rich-type")}
+				if rapid.Bool().Draw(t, "rich-nested") {
+					v.NameID = &RichNameID{NameQualifier: text(t, "rich-nq"), SPNameQualifier: text(t, "rich-spnq"),
+						Format:       rapid.SampledFrom([]string{"", string(saml.PersistentNameIDFormat), "urn:x"}).Draw(t, "rich-nameid-format"),
+						SPProvidedID: text(t, "rich-spprovided"), Value: text(t, "rich-nameid-value")}
+				}
+				if v.NameID == nil || rapid.IntRange(0, 3).Draw(t, "rich-text-too") == 0 {
+					v.Value = text(t, "rich-value")
+				}
+				a.Values = append(a.Values, v)
+			}
+			c.Rich = append(c.Rich, a)
+		}
 	}
 	if rapid.IntRange(0, 2).Draw(t, "pending") == 0 {
 		c.Pending = rapid.IntRange(1, 3).Draw(t, "npending")
@@ -310,11 +361,12 @@ func check(c Case) (res pbt.Result) {
 		return fail("IdP metadata does not survive xml.Marshal/Unmarshal: %v", err)
 	}
 	sp.IDPMetadata = idpMD
-	spMD, spXML, err := idpkit.RoundTrip(sp.Metadata())
+	spMD, spXML, err := publish(sp, c.SP.CertRender)
 	if err != nil {
 		return fail("SP metadata does not survive xml.Marshal/Unmarshal: %v\n%s", err, spXML)
 	}
 	reg.M[spMD.EntityID] = spMD
+	res.Classes = append(res.Classes, fmt.Sprintf("metadata-certificate-layout:%d", c.SP.CertRender))
 
 	if c.Pending > 0 {
 		res.Classes = append(res.Classes, fmt.Sprintf("pending-requests:%d", c.Pending), fmt.Sprintf("answered-position:%d/%d", c.AnswerPos%(c.Pending+1), c.Pending+1))
@@ -349,7 +401,7 @@ func check(c Case) (res pbt.Result) {
 			was := conf
 			conf = *st.SP
 			conf.configure(sp)
-			md, mdXML, err := idpkit.RoundTrip(sp.Metadata())
+			md, mdXML, err := publish(sp, conf.CertRender)
 			if err != nil {
 				return fail("SP metadata does not survive xml.Marshal/Unmarshal: %v\n%s", err, mdXML)
 			}
@@ -388,6 +440,17 @@ func (c Case) login(idp *saml.IdentityProvider, sp *saml.ServiceProvider, sessio
 		return res
 	}
 	sessions.S = sess.Session(fix.Epoch.Add(-1e9))
+	for _, a := range c.Rich {
+		at := saml.Attribute{Name: a.Name, FriendlyName: a.FriendlyName, NameFormat: a.NameFormat}
+		for _, v := range a.Values {
+			av := saml.AttributeValue{Type: v.Type, Value: v.Value}
+			if v.NameID != nil {
+				av.NameID = &saml.NameID{NameQualifier: v.NameID.NameQualifier, SPNameQualifier: v.NameID.SPNameQualifier, Format: v.NameID.Format, SPProvidedID: v.NameID.SPProvidedID, Value: v.NameID.Value}
+			}
+			at.Values = append(at.Values, av)
+		}
+		sessions.S.CustomAttributes = append(sessions.S.CustomAttributes, at)
+	}
 	var err error
 
 	// the SP starts the login (and possibly has other logins outstanding)
@@ -517,14 +580,45 @@ func (c Case) login(idp *saml.IdentityProvider, sp *saml.ServiceProvider, sessio
 	if sess.NameIDFormat != "" && assertion.Subject.NameID.Format != sess.NameIDFormat {
 		return fail("NameID format %q came back as %q", sess.NameIDFormat, assertion.Subject.NameID.Format)
 	}
-	// identity: ordered (name, friendly name, values)
-	want := sess.ExpectedAttributes()
-	var got []idpkit.WantAttr
+	// the subject NameID comes back field by field as the IdP issued it (qualifiers name the IdP and the SP; the session
+	// provides no SPProvidedID)
+	if len(sessions.Seen) == 1 && sessions.Seen[0].Assertion != nil && sessions.Seen[0].Assertion.Subject != nil && sessions.Seen[0].Assertion.Subject.NameID != nil {
+		issued, back := *sessions.Seen[0].Assertion.Subject.NameID, *assertion.Subject.NameID
+		if issued != back {
+			return fail("subject NameID issued as %+v came back as %+v", issued, back)
+		}
+	}
+	if id := assertion.Subject.NameID.SPProvidedID; id != "" {
+		return fail("subject NameID came back with SPProvidedID %s, the session has none", q(id))
+	}
+	// identity: ordered (name, friendly name, values), every value field by field
+	plain := sess.ExpectedAttributes()
+	var want []RichAttr
+	for _, a := range plain {
+		w := RichAttr{Name: a.Name, FriendlyName: a.FriendlyName}
+		for _, v := range a.Values {
+			w.Values = append(w.Values, RichVal{Type: "xs:string", Value: v})
+		}
+		want = append(want, w)
+	}
+	at := len(want)
+	if sess.SubjectID != "" {
+		at--
+	}
+	if len(sess.Groups) > 0 {
+		at--
+	}
+	want = append(want[:at:at], append(append([]RichAttr{}, c.Rich...), want[at:]...)...)
+	var got []RichAttr
 	for _, st := range assertion.AttributeStatements {
 		for _, a := range st.Attributes {
-			w := idpkit.WantAttr{Name: a.Name, FriendlyName: a.FriendlyName}
+			w := RichAttr{Name: a.Name, FriendlyName: a.FriendlyName}
 			for _, v := range a.Values {
-				w.Values = append(w.Values, v.Value)
+				rv := RichVal{Type: v.Type, Value: v.Value}
+				if v.NameID != nil {
+					rv.NameID = &RichNameID{NameQualifier: v.NameID.NameQualifier, SPNameQualifier: v.NameID.SPNameQualifier, Format: v.NameID.Format, SPProvidedID: v.NameID.SPProvidedID, Value: v.NameID.Value}
+				}
+				w.Values = append(w.Values, rv)
 			}
 			got = append(got, w)
 		}
@@ -540,15 +634,81 @@ func (c Case) login(idp *saml.IdentityProvider, sp *saml.ServiceProvider, sessio
 			return fail("attribute %d %s: %d values came back as %d", i, q(want[i].Name), len(want[i].Values), len(got[i].Values))
 		}
 		for j := range want[i].Values {
-			if got[i].Values[j] != want[i].Values[j] {
-				return fail("attribute %d %s value %d: %s came back as %s", i, q(want[i].Name), j, q(want[i].Values[j]), q(got[i].Values[j]))
+			w, g := want[i].Values[j], got[i].Values[j]
+			if g.Value != w.Value {
+				return fail("attribute %d %s value %d: %s came back as %s", i, q(want[i].Name), j, q(w.Value), q(g.Value))
+			}
+			if g.Type != w.Type {
+				return fail("attribute %d %s value %d: type %s came back as %s", i, q(want[i].Name), j, q(w.Type), q(g.Type))
+			}
+			if (g.NameID == nil) != (w.NameID == nil) || (w.NameID != nil && *g.NameID != *w.NameID) {
+				return fail("attribute %d %s value %d: nested NameID %s came back as %s", i, q(want[i].Name), j, nameIDText(w.NameID), nameIDText(g.NameID))
 			}
 		}
 	}
 	return res
 }
 
-func names(l []idpkit.WantAttr) string {
+func nameIDText(n *RichNameID) string {
+	if n == nil {
+		return "<none>"
+	}
+	return fmt.Sprintf("%+q", *n)
+}
+
+var certText = regexp.MustCompile(`(<X509Certificate[^>]*>)([^<]*)(</X509Certificate>)`)
+
+// layout re-renders base64 text the way metadata tools do.
+func layout(b64 string, mode int) string {
+	wrap := func(n int, nl, indent string) string {
+		var sb strings.Builder
+		for i := 0; i < len(b64); i += n {
+			e := i + n
+			if e > len(b64) {
+				e = len(b64)
+			}
+			sb.WriteString(nl + indent + b64[i:e])
+		}
+		return sb.String() + nl
+	}
+	switch mode {
+	case 1:
+		return wrap(64, "\n", "")
+	case 2:
+		return wrap(76, "\r\n", "")
+	case 3:
+		return wrap(64, "\n", "          ")
+	case 4:
+		return wrap(64, "\n", "\t\t\t")
+	case 5:
+		return "\n\n" + b64 + "\n\n"
+	case 6:
+		return "\n \t" + strings.TrimLeft(wrap(60, "\r\n", " \t "), "\r\n") + " \n"
+	}
+	return b64
+}
+
+// publish is what registration sees: the SP's metadata serialised to an XML document (with the certificate
+// text laid out as requested) and parsed again.
+func publish(sp *saml.ServiceProvider, mode int) (*saml.EntityDescriptor, []byte, error) {
+	buf, err := xml.Marshal(sp.Metadata())
+	if err != nil {
+		return nil, nil, err
+	}
+	if mode != 0 {
+		buf = certText.ReplaceAllFunc(buf, func(m []byte) []byte {
+			p := certText.FindSubmatch(m)
+			return []byte(string(p[1]) + layout(string(p[2]), mode) + string(p[3]))
+		})
+	}
+	var md saml.EntityDescriptor
+	if err := xml.Unmarshal(buf, &md); err != nil {
+		return nil, buf, err
+	}
+	return &md, buf, nil
+}
+
+func names(l []RichAttr) string {
 	var out []string
 	for _, a := range l {
 		out = append(out, q(a.Name))
@@ -684,18 +844,54 @@ func enumSequences(_ string, emit func(Case)) {
 	}
 }
 
+// enumShapes: every layout of the certificate text in the published metadata, and custom attribute values of
+// every shape (typed text, nested NameID with each qualifier field set to a value of its own, both).
+func enumShapes(_ string, emit func(Case)) {
+	rich := []RichAttr{
+		{Name: "urn:oid:1.3.6.1.4.1.5923.1.1.1.10", FriendlyName: "eduPersonTargetedID", NameFormat: "urn:oasis:names:tc:SAML:2.0:attrname-format:uri", Values: []RichVal{
+			{Type: "", NameID: &RichNameID{NameQualifier: "https://idp.example.com/nq", SPNameQualifier: "https://sp.example.com/spnq", Format: string(saml.PersistentNameIDFormat), SPProvidedID: "sp-provided-7", Value: "targeted-id-1"}},
+			{Type: "xs:string", NameID: &RichNameID{SPProvidedID: "only <provided> & \"id\"", Value: ""}},
+			{Type: "xs:string", NameID: &RichNameID{NameQualifier: "nq only"}},
+			{Type: "xs:string", NameID: &RichNameID{SPNameQualifier: "spnq only", Value: " v "}},
+		}},
+		{Name: "typed", FriendlyName: "", Values: []RichVal{{Type: "xs:anyURI", Value: "urn:x:y"}, {Type: "", Value: "untyped"}, {Type: "xs:base64Binary", Value: "AAEC"}, {Type: "xs:string", Value: ""},
+			{Type: "xs:string", Value: "text beside", NameID: &RichNameID{Format: "urn:x", Value: "nested"}}}},
+	}
+	sess := idpkit.Sess{ID: "sessionhandle0shapes01", Index: "i", NameID: "alice", UserName: "u", Groups: []string{"g1", "g1"}, SubjectID: "subject-1",
+		Custom: []idpkit.Attr{{Name: "plain", FriendlyName: "p", Values: []string{"v"}}}}
+	for mode := 0; mode <= 6; mode++ {
+		for _, key := range []string{"sp", "sp2"} {
+			for _, signed := range []bool{false, true} {
+				for _, binding := range []string{"redirect", "post"} {
+					for _, withRich := range []bool{false, true} {
+						c := Case{IDP: idpkit.IDPConf{Base: "https://idp.example.com"}, SP: SPConf{Key: key, Cert: true, Signed: signed, Binding: binding, CertRender: mode}, Sess: sess, Relay: "rs"}
+						if withRich {
+							c.Rich = rich
+							// a second login after re-registering with another layout and key
+							other := SPConf{Key: map[string]string{"sp": "sp2", "sp2": "sp"}[key], Cert: true, Binding: binding, CertRender: (mode + 3) % 7}
+							c.Steps = []Step{{SP: &other, Sess: idpkit.Sess{ID: "sessionhandle0shapes02", Index: "j", NameID: "bob"}}}
+						}
+						emit(c)
+					}
+				}
+			}
+		}
+	}
+}
+
 var prop = &pbt.Prop[Case]{
 	ID: "C07",
 	Rule: "cases: one login SP -> IdP -> SP per case: session strings from every XML-1.0 class (markup, quotes, CR/LF/TAB, edge white space, CDATA/comment look-alikes, non-BMP, empty) in NameID, user fields, groups, custom attribute names / friendly names / values " +
 		"x SP config (entity ID set/unset, RSA-2048 / ECDSA P-256 key, certificate published or not = encryption on/off, redirect / POST request binding, signed / unsigned requests) x IdP config (Key or crypto.Signer, default + each RSA method, ECDSA methods through a Signer, intermediates); " +
 		"configuration fields no clause mentions are varied on both sides (SP: AuthnNameIDFormat, ForceAuthn, RequestedAuthnContext, LogoutBindings, MetadataValidDuration, AllowIDPInitiated, ACS URL with a query; IdP: LogoutURL, LoginURL, ValidDuration, form template, explicit assertion maker), and a third of the cases log a second user in through the same IdentityProvider and ServiceProvider values; " +
 		"a quarter of the cases continue with 1-3 further logins on the same long-lived IdentityProvider, registry and ServiceProvider values, the SP re-configuring itself in place (key rotation, certificate dropped / added, entity ID set / unset / changed, signing, binding) and re-registering its freshly published metadata in between; a third of the logins have 1-3 other request IDs outstanding on the SP side with the answered one at any position; the session ID (internal handle) must not appear in the emitted response; " +
+		"a third of the cases add custom attributes whose values have every shape saml.AttributeValue supports (xsi:type, text, nested NameID with NameQualifier / SPNameQualifier / Format / SPProvidedID / Value), compared field by field with what the SP returns, as is the subject NameID; the SP's metadata is registered from an XML document in which the X509Certificate text is laid out as tools do (single line, wrapped at 64/76 with LF/CRLF, indented with spaces or tabs, blank lines around); " +
 		"both sides are configured from xml.Unmarshal(xml.Marshal(peer.Metadata())); exhaustive: the configuration lattice with one session holding every character class in every position. " +
 		"non-trivial: at least one identity string outside plain ASCII. distinct: sha256 of the JSON case.",
 	Gen:   gen,
 	Check: check,
 	Reset: fix.Reset,
-	Enums: []pbt.Enum[Case]{{Name: "config-lattice-rsa-sp", Each: enumConfigs("sp")}, {Name: "config-lattice-ecdsa-sp", Each: enumConfigs("spec")}, {Name: "carriage-return-positions", Each: enumCR}, {Name: "re-registration-and-pending-requests", Each: enumSequences}},
+	Enums: []pbt.Enum[Case]{{Name: "config-lattice-rsa-sp", Each: enumConfigs("sp")}, {Name: "config-lattice-ecdsa-sp", Each: enumConfigs("spec")}, {Name: "carriage-return-positions", Each: enumCR}, {Name: "re-registration-and-pending-requests", Each: enumSequences}, {Name: "value-shapes-and-metadata-layouts", Each: enumShapes}},
 	Assumptions: []string{
 		"strings XML 1.0 cannot represent are outside the domain (xgen produces representable ones only)",
 		"the expected attribute list is a reference mapping written from the documented default assertion maker: standard LDAP/eduPerson OIDs for the user fields that are set, custom attributes as given, groups, subject-id; the registered SP requests no attributes",
